@@ -88,6 +88,12 @@ def rules(ctx):
     from .C07 import required_vehicles_pairing
     required_vehicles_pairing(ctx, "R2")     # the demand that the lower bound of a trip arc enforces
     capacity_capped_by_total(ctx)      # the capacity of a depot's spawn arc (capacity_of -> capacity_for) is capped by the depot's total
+    # "connectable under the timing rules": the turnaround tables the arcs are enumerated with (shared with C17)
+    from .C17 import timing_rule
+    before = len(ctx.obligations)
+    timing_rule(ctx)
+    for o_ in ctx.obligations[before:]:
+        o_.id = o_.id.replace("C14/R3.", "C14/R5.timing.")
     ties.range_bound_rule(ctx, "R3.predecessors-keep-ties", N("predecessors"), "pred")
     ties.range_bound_rule(ctx, "R3.successors-keep-ties", N("successors"), "succ")
     fd, edges = flownet.edge_sites(ctx)
@@ -140,6 +146,34 @@ def rules(ctx):
             ctx.ok(o, "%d calls, predecessor first" % seen)
         else:
             ctx.undecided(o, "the calls computing the connection cost are not in a recognised place (R1.connection-cost still requires them)")
+    # idle time is waived only next to a depot: between trips and maintenance slots it is priced like in the objective
+    o = ctx.ob("R1.connection-idle-waived-only-at-depots", "T12", SFVT,
+               "the idle cost of a connection arc is left out only when one of its ends is a depot")
+    if fd is not None:
+        sites = []
+        for f in hosts(ctx, SFVT, 1):
+            sites += [(f, c) for c in f.body.calls() if c.callee == N("idle_time_between")]
+        tests, wrong = set(), []
+        for f, c in sites:
+            for sw, callee, d in controlling_sources(f, c):
+                nm = (callee or "").split("::")[-1]
+                if callee and callee.startswith(ND("")) and nm.startswith("is_"):
+                    tests.add(nm)
+                    if nm in ("is_service", "is_maintenance"):
+                        wrong.append((c, nm))
+        if {"is_service", "is_maintenance"} <= tests or (wrong and tests & {"is_depot", "is_start_depot", "is_end_depot"}):
+            # both non-depot kinds are asked for (possibly 'service or maintenance' = 'not a depot'): the combination is not decided here
+            ctx.undecided(o, "idle cost under a combination of kind tests %s" % sorted(tests))
+        elif wrong:
+            ctx.bad(o, "whether idle time is priced (%s) is decided by %s(): waiting before or after a maintenance slot costs nothing in the flow "
+                    "network although the objective charges it, so the flow optimum is not the cheapest fleet" % (wrong[0][0].line(), wrong[0][1]),
+                    loc=wrong[0][0].line())
+        elif sites and tests & {"is_depot", "is_start_depot", "is_end_depot"}:
+            ctx.ok(o, "%d idle-time site(s) under %s" % (len(sites), sorted(tests)))
+        else:
+            ctx.undecided(o, "no kind test recognised around the idle cost (%d site(s))" % len(sites))
+    else:
+        ctx.undecided(o, "flow network builder not analysed")
     flownet.need(ctx, "R1.trip-cost", edges, "trip", "cost", [call(ND("duration")), field(COSTS, "service_trip")],
                  "trip arcs cost their duration at the service rate")
     flownet.need(ctx, "R1.maintenance-cost", edges, "maintenance", "cost", [call(ND("duration")), field(COSTS, "maintenance")],
